@@ -158,6 +158,18 @@ pub fn mix_table(mix: &str) -> Vec<(&'static str, u32)> {
             ("t_iter_hash", 4), ("retain", 2), ("t_extract_if", 3), ("drain", 2), ("iter", 5), ("into_iter", 2),
             ("clear", 1), ("reserve", 2), ("shrink_to", 2), ("t_shrink_to_fit", 2), ("clone", 1), ("clone_from", 2),
         ],
+        "par" => vec![
+            ("insert", 30), ("remove", 18), ("par_iter", 12), ("par_drain", 6), ("into_par_iter", 3), ("par_extend", 6), ("par_eq", 4),
+            ("extend", 2), ("clone_from", 2), ("shrink_to_fit", 1),
+        ],
+        "parset" => vec![
+            ("insert", 30), ("remove", 16), ("par_iter", 8), ("par_drain", 5), ("into_par_iter", 2), ("par_union", 4),
+            ("par_intersection", 4), ("par_difference", 4), ("par_symmetric_difference", 4), ("par_is_subset", 3), ("par_is_superset", 2),
+            ("par_is_disjoint", 3), ("par_eq", 3), ("extend", 2),
+        ],
+        "partable" => vec![
+            ("t_insert_unique", 34), ("t_remove", 18), ("par_iter", 12), ("par_drain", 7), ("into_par_iter", 3), ("t_find", 4), ("clone_from", 2),
+        ],
         "wide" => {
             let mut v = vec![];
             for m in ["basic", "entry", "iter", "many", "cap"] {
@@ -265,6 +277,23 @@ impl OpGen {
                 ev.n = rng.random_range(0..3);
                 ev.j = if rng.random_range(0..2) == 0 { -1 } else { rng.random_range(0..6) };
             }
+            "par_iter" | "par_drain" | "into_par_iter" => {
+                ev.n = if name == "par_iter" { rng.random_range(0..5) } else { rng.random_range(0..2) };
+                ev.j = [1i64, 2, 3, 8, 64][rng.random_range(0..5)];
+            }
+            "par_extend" => {
+                let n = rng.random_range(0..40);
+                for _ in 0..n {
+                    ev.ks.push(rng.random_range(0..self.nkeys) as i64);
+                    ev.ks.push(rng.random_range(1..4));
+                }
+                ev.j = [1i64, 2, 3, 8, 64][rng.random_range(0..5)];
+            }
+            "par_eq" | "par_union" | "par_intersection" | "par_difference" | "par_symmetric_difference" | "par_is_subset"
+            | "par_is_superset" | "par_is_disjoint" => {
+                ev.u = if self.nt > 1 { 3 - t } else { t };
+                ev.j = [1i64, 2, 3, 8, 64][rng.random_range(0..5)];
+            }
             "clone" | "clone_from" | "eq" | "is_subset" | "is_superset" | "is_disjoint" | "union" | "intersection"
             | "difference" | "symmetric_difference" | "op_or" | "op_and" | "op_xor" | "op_sub" | "or_assign" | "and_assign"
             | "xor_assign" | "sub_assign" => {
@@ -331,7 +360,7 @@ where
     for<'a> K: From<&'a K::Q>,
 {
     let mut rng = SmallRng::seed_from_u64(seed ^ 0x9E37_79B9_7F4A_7C15);
-    let nt = sc.opt_u("nt", if sc.mix == "two" || sc.mix == "fault" { 2 } else { 1 }) as usize;
+    let nt = sc.opt_u("nt", if sc.mix == "two" || sc.mix == "fault" || sc.mix == "par" { 2 } else { 1 }) as usize;
     env::reset_all();
     let p1 = make_plan(&sc.plan, sc.nkeys, &mut rng);
     let p2 = make_plan(sc.opt("plan2").unwrap_or(&sc.plan), sc.nkeys, &mut rng);
